@@ -63,7 +63,7 @@ class C02(Prop):
         self.static_resolution(case, res, d)
         if res.failures:
             return res
-        for x in case["instances"]:
+        for x in GW.instances_of(case):
             res.evals += 1
             # ---- oracle B: O-SPEC verdict with its own resolver
             ctx = spec.Ctx(d, resolver=GW.oracle_resolver(case))
